@@ -40,12 +40,12 @@ ASSUMPTIONS = ["migen tracer shim (names only)", "the bus master is a 32-bit Wis
 FLOORS = {"quick": {"registers_replayed": 600, "accessor_reads": 600, "accessor_writes": 300, "socs_built": 40, "mem_region_words_checked": 200,
                     "cross_format_entries_compared": 2000, "image_bytes_checked": 12000, "registers_wider_than_64_bits": 40, "interrupts_raised_and_located": 40,
                     "fields_located": 250, "field_accessor_writes_replayed": 120,
-                    "other_memories_checked_after_region_write": 400, "ram_image_words_read_back": 150, "extra_ram_requests_inside_a_neighbours_window_refused": 6},
+                    "other_memories_checked_after_region_write": 400, "ram_image_words_read_back": 150, "oversize_images_offered": 15, "extra_ram_requests_inside_a_neighbours_window_refused": 6},
           "thorough": {"registers_replayed": 9000, "accessor_reads": 9000, "accessor_writes": 4500, "socs_built": 600,
                        "mem_region_words_checked": 3000, "cross_format_entries_compared": 30000, "image_bytes_checked": 300000,
                        "registers_wider_than_64_bits": 600, "interrupts_raised_and_located": 500,
                        "fields_located": 4000, "field_accessor_writes_replayed": 2000,
-                       "other_memories_checked_after_region_write": 6000, "ram_image_words_read_back": 2500, "extra_ram_requests_inside_a_neighbours_window_refused": 90}}
+                       "other_memories_checked_after_region_write": 6000, "ram_image_words_read_back": 2500, "oversize_images_offered": 250, "extra_ram_requests_inside_a_neighbours_window_refused": 90}}
 SHARD_TIMEOUT = {"quick": 1500, "thorough": 3400}
 N_SAMPLES = 2
 
@@ -156,6 +156,18 @@ def build_soc(case, rng, specs, init_files):
     # previous one's decoded (power-of-two) window: LiteX has to refuse that request (the harness then asks for the next free
     # aligned place). A region accepted there answers together with its neighbour, which the memory-region replay sees.
     soc.main_ram_image = False
+    soc.oversize = None
+    if main_size and rng.random() < 0.4:
+        # an image that does not fit (one to three bus words too long) has to be refused: its last bytes have no place to go
+        nbw = case["bus_dw"] // 8
+        nwords = main_size // nbw + rng.choice([1, 2, 3])
+        try:
+            soc.init_ram("main_ram", contents=[rng.getrandbits(case["bus_dw"]) for _ in range(nwords)])
+            soc.oversize = {"accepted": True, "image_bytes": nwords * nbw, "memory_bytes": main_size, "bus_data_width": case["bus_dw"]}
+            soc.main_ram.mem.init = []
+        except SoCError:
+            env.restore_stderr()
+            soc.oversize = {"accepted": False}
     if main_size and init_files.get("main_ram") and 4 * len(init_files["main_ram"]) <= main_size and rng.random() < 0.7:
         soc.init_ram("main_ram", contents=init_files["main_ram"])
         soc.main_ram_image = True
@@ -337,6 +349,10 @@ def run_soc(case):
         shutil.rmtree(tmpdir, ignore_errors=True)
     js = json.loads(ex["json"])
     hd = parse_header(ex["header"])
+    if getattr(soc, "oversize", None):
+        st["oversize"] = 1
+        if soc.oversize["accepted"]:
+            errs.append(dict(soc.oversize, kind="image-larger-than-the-memory-accepted[dw%d]" % soc.oversize["bus_data_width"]))
     # ---- cross-format agreement
     csv_regs = {}
     csv_mem = {}
@@ -728,6 +744,7 @@ def run_shard(shard):
         col.ev("fields_located", st.get("fields", 0))
         col.ev("other_memories_checked_after_region_write", st.get("mem_others", 0))
         col.ev("ram_image_words_read_back", st.get("ram_image_words", 0))
+        col.ev("oversize_images_offered", st.get("oversize", 0))
         col.ev("extra_ram_requests_inside_a_neighbours_window_refused", r.get("xram_refusals", 0))
         col.ev("field_accessor_writes_replayed", st.get("field_writes", 0))
         col.ev("interrupts_raised_and_located", st.get("irqs", 0))
